@@ -94,4 +94,20 @@ Fixpoint compact_outer (gas : nat) (s : list T) (k : Z) : res (list T * Z) :=
 Definition compact_impl (s : list T) : res (list T * Z) :=
   if zlen s <? 2 then Ok (s, zlen s) else compact_outer (S (length s)) s 1.
 
+(* Dedup on a view v of the argument whose elements are s: the result slice s[:k] (same offset,
+   same capacity) and the new elements *)
+Definition dedup_view (s : list T) (v : view) : res (view * list T) :=
+  do sk <- compact_impl s;
+  do w <- slice3 v 0 (snd sk) (vcap v);
+  Ok (w, fst sk).
+
+(* ---- the reference: drop every element that equals (eqb cur prev) its predecessor ---- *)
+Fixpoint dedup_from (prev : T) (l : list T) : list T :=
+  match l with
+  | [] => []
+  | y :: r => if eqb y prev then dedup_from y r else y :: dedup_from y r
+  end.
+Definition dedup_spec (l : list T) : list T :=
+  match l with [] => [] | x :: r => x :: dedup_from x r end.
+
 End More.
